@@ -1,6 +1,7 @@
 import Proofs.SortExt
 import Proofs.SortCode
 import Proofs.SortCanon
+import Proofs.SortArity
 /-!
 # C16 — External sort returns the sorted (and combined) multiset of its input
 
@@ -341,6 +342,31 @@ theorem codeSort_sorted_perm {lt : α → α → Bool} (h : StrictWeak lt) (pick
     out.Pairwise (fun a b => lt b a = false) ∧ out ~ blocks.flatten := by
   obtain ⟨plan, _, hp⟩ := codeSort_refines lt neverCombine pick cfg lazyMem blocks out p ret ho
   exact ⟨extSort_sorted h (neverCombine_keeps lt) pick blocks plan hp, extSort_perm h pick blocks plan hp⟩
+
+/-- **codeSort_ok — no abort, no stall**: for every configuration the `Sort` constructor accepts
+(`entry_size > 0`, `buffer_size` a positive multiple of it after rounding, `total_memory ≥ 4·buffer_size`),
+every `lazy_memory`, every input and block structure, the arity logic completes: neither
+"not merging at least two stripes" nor "should only be one merge group for lazy sort" nor an
+empty queue is reachable, and the pass loop ends within `#runs` passes (the model's fuel). -/
+theorem codeSort_ok {entrySize bufferSize totalMemory : Nat} {cfg : Cfg}
+    (hcfg : mkCfg entrySize bufferSize totalMemory = .ok cfg)
+    (lt : α → α → Bool) (comb) (pick) (lazyMem : Nat) (blocks : List (List α)) :
+    ∃ out p ret, codeSort lt comb pick cfg lazyMem blocks = .ok (out, p, ret) :=
+  codeSort_ok_aux (mkCfg_legal hcfg) lt comb pick lazyMem blocks
+
+example : mkCfg 8 800 3300 = .ok ⟨8, 800, 3300⟩ := rfl   -- the configuration of sort_test.cc
+example : mkCfg 12 100 384 = .ok ⟨12, 96, 384⟩ := rfl     -- buffer rounded down, exactly four buffers
+example : mkCfg 12 100 383 = .error .badConfig := rfl
+
+/-- so the real plan satisfies the property: for every accepted configuration the output of the
+code's own plan exists, is sorted and (without combiner) a permutation of the input -/
+theorem codeSort_correct {entrySize bufferSize totalMemory : Nat} {cfg : Cfg}
+    (hcfg : mkCfg entrySize bufferSize totalMemory = .ok cfg)
+    {lt : α → α → Bool} (h : StrictWeak lt) (pick) (lazyMem : Nat) (blocks : List (List α)) :
+    ∃ out p ret, codeSort lt neverCombine pick cfg lazyMem blocks = .ok (out, p, ret) ∧
+      out.Pairwise (fun a b => lt b a = false) ∧ out ~ blocks.flatten := by
+  obtain ⟨out, p, ret, ho⟩ := codeSort_ok hcfg lt neverCombine pick lazyMem blocks
+  exact ⟨out, p, ret, ho, codeSort_sorted_perm h pick cfg lazyMem blocks out p ret ho⟩
 
 /-- the fixed-size-record sort used per block (`SizedSort`, modelled by a stable merge sort) -/
 theorem sizedSort_perm_sorted {lt : α → α → Bool} (h : StrictWeak lt) (b : List α) :
